@@ -680,12 +680,15 @@ object_t *clone_object (const char *str1, int num_arg) {
   reference_prog (ob->prog, "clone_object");
   DEBUG_CHECK (!current_object, "clone_object() from no current_object !\n");
 
-  init_object (new_ob);
-
+  /* link the clone into the object list before the master is asked for its
+   * uid (as load_object() does): an error raised by creator_file() must
+   * not leave an object that nothing refers to and nothing can destruct */
   new_ob->next_all = obj_list;
   obj_list = new_ob;
   opt_info (1, "cloning object /%s", obj_list->name);
   enter_object_hash (new_ob);	/* Add name to fast object lookup table */
+
+  init_object (new_ob);
   call_create (new_ob, num_arg);
   command_giver = save_command_giver;
   /* Never know what can happen ! :-( */
